@@ -144,7 +144,8 @@ def minH : Handler := fun args => do
   | none => .error "unmodelled"
 
 /-- `trig.c01.known <ver2020> <prog>` → `1` iff the program is in the modelled fragment and falls under an open known
-    finding of the model (K-C01-1 `return a,b,undefined`, K-C01-2 call merging below an effectful condition) -/
+    finding of the model (K-C01-1 `return a,b,undefined`, K-C01-2 call merging below an effectful condition): the model
+    is defined, the guarded model is not -/
 def knownH : Handler := fun args => do
   let v ← argBool args 0
   let b ← argBytes args 1
